@@ -274,6 +274,81 @@ def replay_mode(path):
     return 0
 
 
+# ------------------------------------------------------------------------------------------ the table inside the real search
+def in_search_phase(cx):
+    """Sessions of real searches on one shared table each (hook H9): every probe / insert / new search of the tree search is a
+    step of TransTable's own actions in Trace_TableInSearch (set-valued PropertyView state next to the CodeView table)."""
+    import searches
+    chk, q = cx.chk, cx.chk.quick
+    rng = chk.rng
+    roots = searches.root_positions()
+    rng.shuffle(roots)
+    D = 6 if q else 8
+    nfiles = 6 if q else 16
+    files = []
+    for f in range(nfiles):
+        a, b, c = roots[(3 * f) % len(roots)], roots[(3 * f + 1) % len(roots)], roots[(3 * f + 2) % len(roots)]
+        jobs = [
+            # one position deepened search by search, another one in between, the first again (entries of earlier searches
+            # are met and must give way), a new game, the first once more
+            {"hash": 1, "tag": "deepen", "searches": [{"pos": a, "depth": d} for d in range(1, D + 1)] +
+             [{"pos": b, "depth": D}, {"pos": a, "depth": D}, {"pos": a, "depth": D - 1, "newgame": True}, {"pos": b, "depth": D - 1}]},
+            # many short searches: the generation moves on quickly
+            {"hash": 1, "tag": "short", "searches": [{"pos": (a, b, c)[i % 3], "depth": 2 + (i % 3)} for i in range(24 if q else 60)]},
+            # a search stopped inside the tree, then the same position again on the same table
+            {"hash": 1, "tag": "stopped", "searches": [{"pos": c, "depth": D + 1, "stopk": 2}, {"pos": c, "depth": D - 1}]},
+        ]
+        files.append(jobs)
+
+    def one(ij):
+        i, jobs = ij
+        jf = os.path.join(chk.outdir, "insearch_%d.jobs" % i)
+        ef = os.path.join(chk.outdir, "insearch_%d.nodes" % i)
+        tf = os.path.join(chk.outdir, "insearch_%d.table.ndjson" % i)
+        vlib.write_ndjson(jf, jobs)
+        o = json.loads(vlib.harness(cx.bins["dev" if i % 2 == 0 else "opt"], ["nodes", jf, ef, tf, 120 if q else 300], timeout=3000))
+        t = vlib.tlc("Trace_TableInSearch", env={"TRACE": tf}, timeout=3000, xmx="3g")
+        if t.error or not t.ok or not t.stats("tableinsearch") or t.viols("TRACE"):
+            raise ToolError("Trace_TableInSearch did not accept the whole of %s: %s" % (tf, t.error or t.viols("TRACE") or t.stdout[-1500:]))
+        t.path = tf
+        return o, t
+    tot, ops, written, keys, slots = {}, 0, 0, 0, 0
+    complete = True
+    for o, t in vlib.pmap(one, list(enumerate(files)), n=min(16, nfiles)):
+        hd = json.loads(open(t.path).readline())
+        complete = complete and hd["complete"]
+        ops += o["table"]["operations"]
+        written += o["table"]["written"]
+        st = t.stats("tableinsearch")[0]
+        keys += st["keys"]
+        slots += st["slots"]
+        for k, v in t.stats("tablecounts")[0].items():
+            tot[k] = tot.get(k, 0) + v
+        for d in t.viols(PID):
+            # data the recorded inserts do not explain proves nothing when the hooks did not see every insert
+            if not hd["complete"] and d["what"] == "probe-returns-data-never-stored-under-this-key":
+                chk.drift.append({"what": "in-search-" + d["what"] + "-but-inserts-incomplete", "detail": d.get("detail"), "source": t.path})
+                continue
+            det = d.get("detail", {})
+            chk.violation("in-search|%s|key %s|slot %s|got %s" % (d["what"], det.get("key"), det.get("slot"), det.get("got")),
+                          "in-search-" + d["what"], {"report": d, "trace": t.path, "line": d.get("at")},
+                          replay={"kind": "table-in-search", "trace": t.path, "line": d.get("at")})
+        for d in t.drifts(PID):
+            chk.drift.append({"what": "in-search-" + d["what"], "detail": d.get("detail"), "source": t.path})
+        chk.add("traces_validated_against_impl", 1)
+    if not complete:
+        chk.drift.append({"what": "in-search-insert-sites-the-hooks-do-not-cover",
+                          "detail": "the tables counted more inserts than the search's recorded call sites made"})
+    for k in ("tables", "resets", "newsearches", "inserts", "forced", "free", "free_other_key", "probes", "hits",
+              "hits_earlier_search", "misses_other_key"):
+        if tot.get(k, 0) == 0:
+            raise ToolError("vacuous in-search run: no '%s' in %s" % (k, tot))
+    chk.cov["table_inside_the_search"] = {"files": nfiles, "table_operations_of_the_searches": ops, "operations_on_tracked_slots": written,
+                                          "keys": keys, "slots": slots, "steps": tot, "all_inserts_recorded": complete, "max_depth": D + 1}
+    return written
+
+
+
 # ------------------------------------------------------------------------------------------ main
 def main():
     if os.environ.get("VERIF_REPLAY"):
@@ -538,6 +613,9 @@ def main():
             for d in r["diffs"][:5]:
                 chk.drift.append({"what": "generated-behaviour-differs-" + d["what"], "detail": d, "source": r["t"].path})
             chk.sample({"source": "TLC-generated (GenSpec), replayed on the %s build" % r["profile"], "ops": r["sample"]})
+    insearch = in_search_phase(cx)
+    events += insearch
+    by["in_search"] = insearch
     # vacuity: every kind of operation and every kind of replacement decision must have occurred
     for k in ("tables", "inserts", "forced", "forbidden", "free", "probes", "hits", "newsearches", "wraps", "resets",
               "resizes", "fills"):
@@ -556,7 +634,10 @@ def main():
                 "below bit 32 / bit 48), PVStep (probe only under the same key, latest admitted insert, forced / forbidden / free "
                 "admission on the true search number, reset and size-changing resize empty the table, permille = floor(1000*filled/slots) "
                 "+-1, no panic) => VIOLATION, CodeStep => DRIFT. non-trivial = inserts into an occupied slot, where the replacement "
-                "policy decides (forced + forbidden + free + aliased)",
+                "policy decides (forced + forbidden + free + aliased).  In addition (table_inside_the_search): every probe / insert / "
+                "new search that REAL searches perform on their table (hook H9, sessions of searches sharing one table, both builds) "
+                "is a step of TransTable's own actions in Trace_TableInSearch; what each probe returned must be what some content "
+                "the property allows for the slot returns (VIOLATION) and what the CodeView table returns (DRIFT)",
     })
     chk.assumptions += [
         "bounded model: 3/2%s slots, 5 keys (two colliding pairs at 3 slots), depths %s, 3 bounds, GenMod = 4 stored ages; "
